@@ -30,4 +30,40 @@ PROPS = {
     ),
 }
 
+
+def _bounded(prop, driver, what, sidecars=(), assumptions=(), level="exploration"):
+    return dict(
+        sidecars=list(sidecars),
+        driver=driver,
+        level=level,
+        expect_obligations=bool(sidecars),
+        level_text=(
+            "Bounded stand-in, NOT a proof: " + what + " Nothing deductive is claimed for this property yet beyond "
+            "the obligations listed in the evidence (if any); the evidence lists what is proved and what is bounded."
+        ),
+        level_note="Trusted: the independent oracle in /verif/spec (tokens, schema validity from the spec strings), CPython, the stated bounds.",
+        technique="bounded runtime-contract / oracle check (stand-in for contract-based deductive verification; obligations listed in evidence where discharged)",
+        assumptions=["PYVC", "Z3"] + list(assumptions) if sidecars else [],
+        extra_assumptions=["bounded: documents <= ~26 tokens from a fixed corpus + seeded generator; sampled ranges where stated"],
+        explanation=what,
+        bounded_only=[prop],
+    )
+
+
+PROPS.update({
+    "C01": _bounded("C01", "c01", "all eight step kinds applied (directly and through JSON) to valid documents under 6 schema variants; result must be a clean failure or an oracle-valid document."),
+    "C02": _bounded("C02", "c02", "Node.slice / Node.replace against the flat-token oracle for every range of small documents and a pool of foreign slices."),
+    "C03": _bounded("C03", "c03", "every applied step's map against the token picture (size delta, tokens at mapped positions)."),
+    "C04": _bounded("C04", "c04", "histories through the transform API: replay, undo, alignment of steps/docs/maps, inverse maps; single-step undo."),
+    "C09": _bounded("C09", "c09", "resolve + every accessor, node_at, marks, nodes_between, text_between (UTF-16), range_has_mark against an oracle tree for every position / pair."),
+    "C11": _bounded("C11", "c11", "7 replace-family operations x ranges x payload-valid slices: totality (2 s alarm), oracle validity, prefix/suffix preservation, no invented content."),
+    "C12": _bounded("C12", "c12", "helper approvals (split, join, join_point, lift, wrap, insert_point, drop_point) followed by the edit: must succeed, stay valid, keep the leaf sequence."),
+    "C13": _bounded("C13", "c13", "add/remove mark over ranges and node-level edits against a per-token mark oracle incl. an exclusion-variant schema."),
+    "C14": _bounded("C14", "c14", "mark-set algebra on every configuration with <= 4 mark types, all reachable sets, against the set-theoretic oracle; compilation of excludes/marks declarations."),
+    "C16": _bounded("C16", "c16", "ordered step pairs biased to adjacency: merged step vs the two steps."),
+    "C17": _bounded("C17", "c17", "pairs of steps with separated touched ranges: rebase both ways, both orders equal."),
+    "C18": _bounded("C18", "c18", "every range inside every isolating node x replace-family operations: tokens outside the node unchanged; lift_target / can_split do not cross."),
+    "C20": _bounded("C20", "c20", "find_diff_start / find_diff_end against token prefixes / suffixes on equal copies and (document, edited document) pairs sharing sub-trees, incl. astral text; 2 s alarm."),
+})
+
 NOT_APPLICABLE = {}
